@@ -102,7 +102,8 @@ def run_smtp_case(case):
         if case.get('starttls'):
             exts.append('STARTTLS')
         if case.get('auth'):
-            exts.append('AUTH PLAIN LOGIN')
+            # 'auth' may name the mechanisms the peer advertises (e.g. one the SASL library does not know)
+            exts.append('AUTH ' + (case['auth'] if isinstance(case['auth'], str) else 'PLAIN LOGIN'))
         p = StagePeer(script, lmtp=lmtp, exts=exts, chunks=case.get('chunks'), multiline=case.get('multiline', False))
         peers.append(p)
         return p
@@ -158,6 +159,11 @@ def run_smtp_case(case):
                 if stage in ('RSET', 'QUIT'):
                     continue
                 cls_ = 'perm' if outc[:1] == '5' else 'temp'
+                if stage == 'AUTH' and outc.startswith('334'):
+                    # an exchange the client cannot complete: the attempt must fail, either class
+                    applies_all.append((stage, outc, 'temp'))
+                    applies_all.append((stage, outc, 'perm'))
+                    continue
                 if outc in CONNECTION_FAULTS:
                     applies_all.append((stage, outc, 'temp'))
                 elif stage.startswith('RCPT'):
@@ -171,6 +177,10 @@ def run_smtp_case(case):
                     continue
                 else:
                     applies_all.append((stage, outc, cls_))
+            if isinstance(case.get('auth'), str) and not set(case['auth'].split()) & {'PLAIN', 'LOGIN', 'CRAM-MD5'}:
+                # nothing the client could use is on offer: the attempt cannot succeed
+                applies_all.append(('AUTH', 'no usable mechanism', 'perm'))
+                applies_all.append(('AUTH', 'no usable mechanism', 'temp'))
             greets = [st_ for (_, _, st_, o_) in slices if st_ in ('EHLO', 'EHLO2', 'HELO', 'LHLO', 'LHLO2') and o_ == '2xx']
             if case.get('auth') and greets and all(x == 'HELO' for x in greets):
                 applies_all.append(('AUTH', 'not offered after HELO fallback', 'perm'))
@@ -269,6 +279,10 @@ def smtp_table():
                         script['DATA'] = data
                         yield {'kind': kind, 'pipelining': pipelining, 'nrcpt': n, 'scripts': [script]}
             yield {'kind': kind, 'pipelining': pipelining, 'nrcpt': 2, 'scripts': [{'EHLO': '500'}]}
+            # AUTH exchanges going wrong on the server side: a challenge that is not base64, unknown / challenge-first mechanisms
+            for mechs in ('PLAIN LOGIN', 'LOGIN', 'FOOBAR', 'NTLM GSSAPI', 'FOOBAR PLAIN', 'NTLM LOGIN'):
+                for outc in ('334bad', '2xx', '5xx'):
+                    yield {'kind': kind, 'pipelining': pipelining, 'nrcpt': 1, 'auth': mechs, 'scripts': [{'AUTH': outc}]}
             # a recipient accepted with another positive code than 250 ("251 user not local; will forward")
             for n in (1, 2, 3):
                 for i in range(n):
@@ -472,7 +486,8 @@ def replay(case):
         case['nrcpt'] = max(1, min(3, int(n))) if not isinstance(n, list) else [max(1, min(3, int(x))) for x in n]
         scripts = []
         for s in case['scripts']:
-            scripts.append(dict((k, v) for k, v in (s or {}).items() if v in OUTCOMES + ['500', '2xx', '251', '252'] and odd_code_ok(k, v)))
+            scripts.append(dict((k, v) for k, v in (s or {}).items()
+                                if v in OUTCOMES + ['500', '2xx', '251', '252', '334bad'] and odd_code_ok(k, v)))
         case['scripts'] = scripts or [{}]
         f, _ = run_smtp_case(case)
         return f
